@@ -213,7 +213,33 @@ def derived_rule(ctx, p):
     ctx.ob(rule, mc.key + ":centre", len(rets) == 1 and norm_text(rets[0].value) == "grid_2d_util.grid_2d_centre_from(grid_2d_slim=grid)", where=mc, node=mc.node, construct=norm_text(rets[0].value) if rets else "", message="the mask centre must be the centre of the mask's own coordinate grid")
 
 
-_EXT = __import__("re").compile(r"^<(?:np|numpy)\.(?:a?min|a?max|nanmin|nanmax)\((\w+)\[:, (\d)\]\)>$")
+_EXT_FN = {f"call:{m}.{f}" for m in ("np", "numpy") for f in ("min", "max", "amin", "amax", "nanmin", "nanmax")}
+
+
+class _ExtMatch:
+    def __init__(self, col):
+        self.col = col
+
+    def group(self, k):
+        return self.col
+
+
+class _Ext:
+    """extremum of one coordinate column of a grid: np.min(grid[:, k]) as a canonical application atom"""
+    @staticmethod
+    def match(at):
+        if not (isinstance(at, tuple) and at[0] == "f" and at[1] in _EXT_FN and len(at[2]) == 1 and isinstance(at[2][0], Poly)):
+            return None
+        inner = [a for a in at[2][0].atoms()]
+        if len(inner) == 1 and inner[0][0] == "f" and inner[0][1] == "index" and len(inner[0][2]) == 3 and at[2][0] == Poly.atom(inner[0]):
+            col = inner[0][2][2]
+            sl = inner[0][2][1]
+            if isinstance(col, Poly) and col.is_const() and isinstance(sl, Poly) and sl == Poly.sym(":"):
+                return _ExtMatch(str(int(col.const_value())) if hasattr(col, "const_value") else repr(col))
+        return None
+
+
+_EXT = _Ext
 
 
 def extrema_rule(ctx, p):
@@ -238,14 +264,14 @@ def extrema_rule(ctx, p):
             if not isinstance(o, ast.Tuple) or len(o.elts) != 2:
                 continue
             polys = [expr_poly(e, res) for e in o.elts]
-            ext = {a for pl in polys for a in pl.all_atoms() if a[0] == "s" and _EXT.match(a[1])}
+            ext = {a for pl in polys for a in pl.all_atoms() if _EXT.match(a)}
             if not ext:
                 continue
             n += 1
             d = [Poly.sym("d0"), Poly.sym("d1")]
 
             def shift(pl):
-                return pl.subst(lambda at: (Poly.atom(at) + d[int(_EXT.match(at[1]).group(2))]) if (at[0] == "s" and _EXT.match(at[1])) else None)
+                return pl.subst(lambda at: (Poly.atom(at) + d[int(_EXT.match(at).group(2))]) if _EXT.match(at) else None)
             ok = all(shift(polys[k]) - polys[k] == d[k] for k in (0, 1))
             det = f"origin = ({short(polys[0], 80)}, {short(polys[1], 80)})"
             if ok and isinstance(ps, ast.Tuple) and len(ps.elts) == 2:
